@@ -250,6 +250,17 @@ class Engine(
                     # A column with this tag exists upstream of the Select's
                     # projection (which removed it); the new column cannot be
                     # calculated alongside it, so it needs a nested subquery.
+                    if select.has_sort and not select.has_slice:
+                        # ... but a Sort without a Slice must stay in the
+                        # outer query, or the subquery would silently drop the
+                        # order; that is only possible if it sorts on columns
+                        # the subquery still exposes.
+                        if not select.sort.columns_required <= select.columns:
+                            raise RelationalAlgebraError(
+                                f"Applying {operation} to relation {select} will not preserve row order."
+                            )
+                        subquery = select.reapply_skip(sort=None)
+                        return Select.apply_skip(operation._finish_apply(subquery), sort=select.sort)
                     return Select.apply_skip(operation._finish_apply(select))
                 elif select.has_projection:
                     return select.reapply_skip(
